@@ -41,6 +41,11 @@ def handle : Handler := fun op a =>
         match l with
         | [] => some acc.reverse
         | "copy" :: rest => go st tracked rest (fmtState st true st.data.length :: acc)
+        | "probe" :: rest =>
+            -- write 100+k at the k-th multi-index (row-major enumeration) over a buffer of -1
+            let blank : St := { st with data := List.replicate st.data.length (-1) }
+            let st' := (List.range (prod st.shape)).foldl (fun s k => write s (ndindex st.shape k) (100 + (k : Int))) blank
+            go st' st'.data.length rest (fmtState st' true st'.data.length :: acc)
         | s :: rest => do
             let o ← parseOp s
             let (st', r) := step c st o
